@@ -22,6 +22,7 @@ def _worker_run(job):
     t0 = time.time()
     try:
         scen = _W['scen']
+        os.environ['VERIF_TIER'] = str(job.get('tier', 'quick'))
         res = scen.run_job(_engine, job)
         res.setdefault('job', job)
         res['wall'] = time.time() - t0
@@ -223,12 +224,16 @@ def main(scen_name, tier):
 def report(scen, prop, tier, seed, jobs, results, cut, nat, known, ev_path, t_start, t_build, workdir):
     import z3
     agg = new_result(); crashes = []; samples = []; viol = {}; incon = []
-    fnset = set(); walls = []
+    fnset = set(); walls = []; xc_dis = []
     for r in results:
         if 'crash' in r: crashes.append(r['crash']); continue
         if 'inconclusive_worker' in r: incon.append('%s [%s %s]' % (r['inconclusive_worker'], r['job'].get('name'), r['job'].get('field') or r['job'].get('forced') or r['job'].get('cfg'))); continue
         for k in ('paths', 'nontrivial', 'obligations', 'discharged', 'trivial', 'solver_queries', 'steps', 'forks'): agg[k] += r.get(k, 0)
         agg['solver_s'] += r.get('solver_s', 0.0)
+        for k in ('xc_queries', 'xc_agree', 'xc_undecided'): agg[k] = agg.get(k, 0) + r.get(k, 0)
+        agg['xc_s'] = agg.get('xc_s', 0.0) + r.get('xc_s', 0.0)
+        for k, v in r.get('xc_undecided_kinds', {}).items(): agg.setdefault('xc_kinds', {}); agg['xc_kinds'][k] = agg['xc_kinds'].get(k, 0) + v
+        for d in r.get('xc_disagree', []): xc_dis.append('%s [%s %s]' % (d, r['job'].get('name'), r['job'].get('cfg')))
         for k, v in r.get('kinds', {}).items(): agg['kinds'][k] = agg['kinds'].get(k, 0) + v
         for k, v in r.get('events', {}).items(): agg['events'][k] = agg['events'].get(k, 0) + v
         fnset.update(r.get('functions', []))
@@ -270,6 +275,7 @@ def report(scen, prop, tier, seed, jobs, results, cut, nat, known, ev_path, t_st
             validated += nv; mismatches.extend(msgs)
         except Exception as e:
             mismatches.append('extra validation crashed: %s: %s' % (type(e).__name__, e))
+    mismatches.extend('second solver disagrees: ' + d for d in xc_dis)
     wall = time.time() - t_start
     status = 'ok'
     if crashes: status = 'crash'
@@ -291,6 +297,9 @@ def report(scen, prop, tier, seed, jobs, results, cut, nat, known, ev_path, t_st
         'violations_reported': nviol, 'known_findings_seen': nknown, 'status': status, 'candidates_not_confirmed_natively': dropped[:20],
         'inconclusive': incon[:20], 'crashes': crashes[:3], 'engine_native_mismatches': mismatches[:10],
         'exhaustive': False,
+        'second_solver': {'solver': 'cvc5 1.0.3 (binary, SMT-LIB2 text exported from the path condition and the negated obligation)', 'queries_rechecked': agg.get('xc_queries', 0),
+                          'agree': agg.get('xc_agree', 0), 'undecided_by_second_solver': agg.get('xc_undecided', 0), 'undecided_kinds': agg.get('xc_kinds', {}), 'disagree': len(xc_dis),
+                          'time_s': round(agg.get('xc_s', 0.0), 1), 'rule': 'every query that came back sat (a counterexample) and a sample of the unsat ones (the 1st and 8th obligation query of each configuration in the quick tier, powers of two in the thorough tier); a different verdict fails the run as a machinery error'},
         'programs': len(jobs) * max(1, len(getattr(scen, 'OPTS', ['O1'])(tier) if callable(getattr(scen, 'OPTS', None)) else getattr(scen, 'OPTS', ['O1']))), 'disagreements_checked': agg['obligations'],
     }
     ev = {'property_id': prop, 'tier': tier, 'seed': seed, 'level': getattr(scen, 'LEVEL', 'model_checking'), 'coverage': cov,
